@@ -626,6 +626,13 @@ class Env:
             op = {'fetch_add': 'Add', 'fetch_sub': 'Sub', 'fetch_or': 'BitOr', 'fetch_and': 'BitAnd'}[last]
             cell.fields[0] = it.binop(op, cur, args[1])
             return cur
+        if last == 'fetch_update':
+            f = args[3]
+            r = it.call_value(f, [cur])
+            if r.variant == 'Some':
+                cell.fields[0] = r.fields[0]
+                return Agg('Result', 'Ok', [cur])
+            return Agg('Result', 'Err', [cur])
         if last in ('compare_exchange', 'compare_exchange_weak'):
             exp, new = args[1], args[2]
             if isinstance(cur, Ptr) or isinstance(exp, Ptr):
